@@ -278,7 +278,8 @@ fn parse_events<'py>(
 
             if let Ok(dir) = ef.getattr("direction") {
                 if let Ok(d) = dir.extract::<f64>() {
-                    config.direction(Direction::from(d as i32));
+                    // SciPy reads only the sign of `direction` (0.5 means rising crossings, not all)
+                    config.direction(Direction::from(if d > 0.0 { 1 } else if d < 0.0 { -1 } else { 0 }));
                 }
             }
 
